@@ -552,17 +552,19 @@ impl Expression {
 
         let expr = Expression::shr(lhs.clone(), rhs.clone())?;
 
-        let mask = if rhs.bits() <= 64 {
+        let all_ones: Expression = const_(0, rhs.bits()).sub(&const_(1, rhs.bits()))?.into();
+
+        // Once the shift amount exceeds the width, (width - amount) wraps
+        // around and the shift below would produce an empty mask; every bit
+        // is then a copy of the sign bit.
+        let mask = Expression::ite(
+            Expression::cmpltu(expr_const(rhs.bits() as u64, rhs.bits()), rhs.clone())?,
+            all_ones.clone(),
             Expression::shl(
-                expr_const(0xffff_ffff_ffff_ffff, rhs.bits()),
+                all_ones,
                 Expression::sub(expr_const(rhs.bits() as u64, rhs.bits()), rhs)?,
-            )?
-        } else {
-            Expression::shl(
-                const_(0, rhs.bits()).sub(&const_(1, rhs.bits()))?.into(),
-                Expression::sub(expr_const(rhs.bits() as u64, rhs.bits()), rhs)?,
-            )?
-        };
+            )?,
+        )?;
 
         Expression::or(
             expr,
